@@ -124,10 +124,9 @@ func ensureCanUseORConstraint(node schema.Node) {
 		return
 	}
 
-	ssl := node.Constraint(constraint.TypesListConstraintType).(*constraint.TypesList) //nolint:errcheck // We are sure about that.
-	if ssl.HasUserTypes() {
-		panic(errors.ErrInvalidChildNodeTogetherWithOrRule)
-	}
+	// A hand-written "or" rule next to a type shortcut (@a // {or: [...]}) is
+	// refused whatever it lists: built-in types would replace the reference.
+	panic(errors.ErrInvalidChildNodeTogetherWithOrRule)
 }
 
 func checkBranchNodeWithOrConstraint(schemaNode schema.Node, jsonNode schema.BranchNode) {
